@@ -138,10 +138,14 @@ pub struct Ctrl {
 	pub probe: bool,
 	pub probe_seen: Vec<bool>,
 	pub unknown_addr: usize,
+	/// poison flags as last sampled (at a raw operation)
+	pub seen_poison: Vec<bool>,
 }
 
 thread_local! {
 	pub static CTRL: RefCell<Ctrl> = RefCell::new(Ctrl::default());
+	/// reads the current poison flags of the case's `Poisonable`s (set by the interpreter)
+	pub static POISON_PROBE: RefCell<Option<Box<dyn Fn() -> Vec<bool>>>> = RefCell::new(None);
 }
 
 pub struct FaultPanic;
@@ -167,6 +171,25 @@ enum Outcome {
 }
 
 fn raw_op(addr: usize, kind: Kind) -> bool {
+	// sample the poison flags first (the probe must not run while CTRL is borrowed)
+	let skip = CTRL.with(|c| {
+		let c = c.borrow();
+		c.dead.is_some() || c.probe
+	});
+	if !skip {
+		let now = POISON_PROBE.with(|p| p.borrow().as_ref().map(|f| f()));
+		if let Some(now) = now {
+			CTRL.with(|c| {
+				let mut c = c.borrow_mut();
+				for (i, b) in now.iter().enumerate() {
+					if c.seen_poison.get(i).copied().unwrap_or(false) != *b {
+						c.trace.push(format!("p{i}{}", if *b { "+" } else { "-" }));
+					}
+				}
+				c.seen_poison = now;
+			});
+		}
+	}
 	let out = CTRL.with(|c| {
 		let mut c = c.borrow_mut();
 		if c.dead.is_some() {
